@@ -75,41 +75,46 @@ def run_check(spec, tier='quick', seed=0, replay=None):
     problems = []          # (kind, detail) with kind in proof|translator|harness-build|correspondence|audit
     notes = []
     # ---- 1. translator + Lean
-    gen_res = core.regenerate()
-    for g in spec.generators:
-        st, msg = gen_res.get(g, ('error', 'generator missing'))
-        if st == 'error': problems.append(('translator', f'CelloGen.{g}: {msg}'))
-    targets = ([spec.driver] if spec.driver else []) + mods
-    b = core.lake_build(targets)
-    driver_ok = (not spec.driver) or b[spec.driver][0]
-    if not driver_ok:
-        f, ln, msg = core.first_lean_error(b[spec.driver][1])
-        problems.append(('proof', f'model/driver {spec.driver} does not build: {f}:{ln}: {msg}'))
-    obligations = []
-    for m in mods:
-        try: obligations += core.theorems_of(m)
-        except OSError: pass
-    discharged = list(obligations)
-    for m in mods:
-        ok, lg = b[m]
-        if not ok:
-            f, ln, msg = core.first_lean_error(lg)
-            decl = core.enclosing_decl(f, ln) if f else None
-            problems.append(('proof', f'theorem module {m} no longer checks: {f}:{ln} in `{decl}`: {msg}'))
-            discharged = [t for t in discharged if not t.endswith('.' + (decl or '\0'))] if decl else []
-            if f and not f.endswith(m.replace('.', '/') + '.lean'): discharged = []
-    audit_rep = {}
-    if all(b[m][0] for m in mods):
-        ok, audit_rep = core.audit(mods)
-        if not ok:
-            bad = {k: v for k, v in audit_rep['theorems'].items() if v is None or any(a not in core.ALLOWED_AXIOMS for a in v)}
-            problems.append(('audit', f'axiom/sorry audit failed: {bad} {audit_rep["forbidden"]} {audit_rep["imports_mathlib"]} {audit_rep.get("raw_tail","")[-400:]}'))
-            discharged = [t for t in discharged if t not in bad]
-    lc = {}
-    if tier == 'thorough' and all(b[m][0] for m in mods):
-        lc = core.leanchecker(mods)
-        for m, (ok, lg) in lc.items():
-            if not ok: problems.append(('audit', f'leanchecker rejected {m}: {lg}'))
+    lake_lock = core.Lock('lake'); lake_lock.__enter__()   # regenerate + build + audit are atomic w.r.t. other checks
+    try:
+        gen_res = core.regenerate()
+        for g in spec.generators:
+            st, msg = gen_res.get(g, ('error', 'generator missing'))
+            if st == 'error': problems.append(('translator', f'CelloGen.{g}: {msg}'))
+        targets = ([spec.driver] if spec.driver else []) + mods
+        b = core.lake_build(targets)
+        driver_ok = (not spec.driver) or b[spec.driver][0]
+        if not driver_ok:
+            f, ln, msg = core.first_lean_error(b[spec.driver][1])
+            problems.append(('proof', f'model/driver {spec.driver} does not build: {f}:{ln}: {msg}'))
+        obligations = []
+        for m in mods:
+            try: obligations += core.theorems_of(m)
+            except OSError: pass
+        discharged = list(obligations)
+        for m in mods:
+            ok, lg = b[m]
+            if not ok:
+                f, ln, msg = core.first_lean_error(lg)
+                decl = core.enclosing_decl(f, ln) if f else None
+                problems.append(('proof', f'theorem module {m} no longer checks: {f}:{ln} in `{decl}`: {msg}'))
+                discharged = [t for t in discharged if not t.endswith('.' + (decl or '\0'))] if decl else []
+                if f and not f.endswith(m.replace('.', '/') + '.lean'): discharged = []
+        audit_rep = {}
+        if all(b[m][0] for m in mods):
+            ok, audit_rep = core.audit(mods)
+            if not ok:
+                bad = {k: v for k, v in audit_rep['theorems'].items() if v is None or any(a not in core.ALLOWED_AXIOMS for a in v)}
+                problems.append(('audit', f'axiom/sorry audit failed: {bad} {audit_rep["forbidden"]} {audit_rep["imports_mathlib"]} {audit_rep.get("raw_tail","")[-400:]}'))
+                discharged = [t for t in discharged if t not in bad]
+        lc = {}
+        if tier == 'thorough' and all(b[m][0] for m in mods):
+            lc = core.leanchecker(mods)
+            for m, (ok, lg) in lc.items():
+                if not ok: problems.append(('audit', f'leanchecker rejected {m}: {lg}'))
+
+    finally:
+        lake_lock.__exit__()
     # ---- 2. harness
     hexe = None
     if spec.harness:
